@@ -68,6 +68,8 @@ def op_strategy():
     idx = st.integers(0, 7)
     return st.one_of(new_op(), new_op(), st.tuples(st.just("decode"), idx), st.tuples(st.just("decode"), idx),
                      st.tuples(st.just("encode"), idx), st.tuples(st.just("rebuild"), idx), st.tuples(st.just("drop"), idx),
+                     st.tuples(st.just("new_shared_buffer"), idx, st.sampled_from(["write10", "write12", "write16"]),
+                               st.integers(0, 6), st.booleans()),
                      st.tuples(st.just("marshall_twice"), st.just("mode6"), paramgen.mode_data(False)),
                      st.tuples(st.just("marshall_twice"), st.just("mode10"), paramgen.mode_data(True)),
                      st.tuples(st.just("marshall_twice"), st.just("prout"), paramgen.prout_args()),
@@ -163,6 +165,23 @@ class Pool(object):
                 self.live.pop(0)
         elif k == "marshall_twice":
             marshall_twice(op[1], op[2])
+        elif k == "new_shared_buffer":
+            # a second write command built from the *same caller buffer object* as an earlier one
+            # (callers reuse buffers); building it must not change the first command's data-out
+            _, i, name, tl, as_ba = op
+            writes = [e for e in self.live if type(e["cmd"]).__name__.startswith("Write") and not type(e["cmd"]).__name__.startswith("WriteSame")]
+            if writes:
+                e0 = writes[i % len(writes)]
+                buf = e0["cmd"].dataout
+                cmd = cmds.BY_NAME[name]
+                with lib("constructor (shared caller buffer)"):
+                    c2 = cmd.cls(cmd.opcode("sbc"), 512, 0, tl, buf)
+                self.live.append({"cmd": c2, "ref": {"cdb": bytes(c2.cdb), "decode": own_decode(type(c2), c2.cdb),
+                                                     "encode": own_encode(type(c2), own_decode(type(c2), c2.cdb), len(c2.cdb)),
+                                                     "datain": bytes(c2.datain), "dataout": bytes(e0["ref"]["dataout"])},
+                                  "since": set()})
+                if len(self.live) > 8:
+                    self.live.pop(0)
         elif self.live:
             e = self.live[op[1] % len(self.live)]
             c, ref = e["cmd"], e["ref"]
